@@ -378,6 +378,21 @@ def run_impl(case):
             else:
                 if k == "not":
                     cell.geometry = ~cell.geometry
+                elif k == "setop":
+                    # hs.operator = ... on a binary root (nothing is done on a leaf or a complement)
+                    from montepy.geometry_operators import Operator
+                    from montepy.surfaces.half_space import UnitHalfSpace
+
+                    g = cell.geometry
+                    if not isinstance(g, UnitHalfSpace) and g.operator != Operator.COMPLEMENT:
+                        tl = table(lambda env: hs_eval(g.left, env), vs)
+                        tr = table(lambda env: hs_eval(g.right, env), vs)
+                        if op["o"] == "inter":
+                            st["expect"] = "".join("1" if a == "1" and b == "1" else "0" for a, b in zip(tl, tr))
+                            g.operator = Operator.INTERSECTION
+                        else:
+                            st["expect"] = "".join("1" if a == "1" or b == "1" else "0" for a, b in zip(tl, tr))
+                            g.operator = Operator.UNION
                 else:
                     if "xt" in op:
                         # the operand is the geometry of another cell that was read
@@ -415,7 +430,7 @@ def run_impl(case):
     return res
 
 
-def expected_tables(case):
+def expected_tables(case, impl=None):
     """The table the geometry must have at the start and after every step, from the operands' tables."""
     vs = [tuple(v) for v in case["vars"]]
     n = 2 ** len(vs)
@@ -436,6 +451,12 @@ def expected_tables(case):
         k = op["k"]
         if k == "not":
             cur = lnot(cur)
+        elif k == "setop":
+            # the new operator applied to the unchanged operands (their tables were taken from the live objects
+            # just before the edit); no change on a leaf / complement root
+            i = len(out) - 1
+            if impl is not None and i < len(impl.get("steps", [])) and "expect" in impl["steps"][i]:
+                cur = impl["steps"][i]["expect"]
         elif k != "write":
             x = ast_table(op["x"], vs)
             cur = land(cur, x) if k in ("and", "rand", "iand") else lor(cur, x)
@@ -471,7 +492,9 @@ def gen_ops(rng, maxlen=8):
     ops = []
     for _ in range(rng.randint(0, maxlen)):
         r = rng.random()
-        if r < 0.12:
+        if r < 0.04:
+            ops.append({"k": "setop", "o": rng.choice(["inter", "union"])})
+        elif r < 0.12:
             ops.append({"k": "not"})
         elif r < 0.30:
             ops.append({"k": "write"})
